@@ -163,6 +163,11 @@ func (m *Method) compile() error {
 	if err := m.compileOutput(); err != nil {
 		return err
 	}
+	if m.Channel != nil {
+		if err := m.Channel.compile(); err != nil {
+			return err
+		}
+	}
 	if err := m.compileType(); err != nil {
 		return err
 	}
